@@ -227,7 +227,8 @@ def _validate_one(spec, cfg, trace_file, scratch, timeout, heap, deque, extra_en
     for m in _HWM.finditer(out):
         pass
     if not m:
-        raise Infra("trace validation produced no verdict for %s:\n%s" % (trace_file, out[-3000:]))
+        errs = [ln[:600] for ln in out.splitlines() if ln.startswith("Error:") or "Exception" in ln or ln.startswith("line ")]
+        raise Infra("trace validation produced no verdict for %s:\n%s\n...\n%s" % (trace_file, "\n".join(errs[:12]), out[-1500:]))
     hwm, total = int(m.group(1)), int(m.group(2))
     other_error = None
     if hwm == total and ("Error:" in out and "Postcondition" not in out):
@@ -407,12 +408,36 @@ def sample_lines(files, k=3, skip=None):
     return out
 
 
-def write_evidence(pid, tier, level, coverage, assumptions, wall, violations, extra=None):
+def write_evidence(pid, tier, level, coverage, assumptions, wall, violations, extra=None, merge=False):
+    """merge=True: a check made of two stages adds the second stage's numbers to the first's."""
     os.makedirs(EVIDENCE, exist_ok=True)
+    path = os.path.join(EVIDENCE, pid + ".json")
+    if merge and os.path.exists(path):
+        with open(path) as f:
+            old = json.load(f)
+        oc = old.get("coverage", {})
+        for k, v in list(coverage.items()):
+            if isinstance(v, bool):
+                coverage[k] = v and oc.get(k, v)
+            elif isinstance(v, int) and isinstance(oc.get(k), int):
+                coverage[k] = v + oc[k]
+            elif isinstance(v, list) and isinstance(oc.get(k), list):
+                coverage[k] = oc[k] + v
+            elif isinstance(v, str) and isinstance(oc.get(k), str) and k in ("rule", "checker_cmd"):
+                coverage[k] = oc[k] + " || " + v
+            elif isinstance(v, dict) and isinstance(oc.get(k), dict):
+                d = dict(oc[k])
+                d.update(v)
+                coverage[k] = d
+        for k, v in oc.items():
+            coverage.setdefault(k, v)
+        assumptions = list(dict.fromkeys(old.get("assumptions", []) + assumptions))
+        wall += old.get("wall_s", 0)
+        violations += old.get("violations", 0)
     ev = dict(property_id=pid, tier=tier, seed=seed(), level=level, coverage=coverage,
               assumptions=assumptions, wall_s=round(wall, 2), violations=violations)
     if extra:
         ev.update(extra)
-    with open(os.path.join(EVIDENCE, pid + ".json"), "w") as f:
+    with open(path, "w") as f:
         json.dump(ev, f, indent=1, sort_keys=True)
         f.write("\n")
